@@ -123,6 +123,8 @@ func corpus() []drv.Case {
 		// UNPAUSE with a refused (multi-line) label while active and paused: nothing may change, nothing is stored
 		{Proj: pf, Base: 1, Map: -1, Ops: []drv.Op{st(true, false, true), wc("PAUSE"), pub(0, 1), wc("UNPAUSE two\nlines"), pub(0, 2), pub(1, 2), wc("unpause cr\rlf"), pub(0, 1),
 			wc("UNPAUSEx"), pub(1, 1), wc("UNPAUSE ok"), pub(0, 3), wc("STOP")}},
+		// fault stream: STOP while the experiment-state file cannot be written must still close every channel file
+		{Proj: pf, Base: 1, Map: -1, Fault: true, Ops: []drv.Op{st(true, true, true), pub(0, 2), pub(1, 1)}},
 		// pause while idle, unpause while idle, stop while idle
 		{Proj: []bool{true}, Base: 1, Map: -1, Ops: []drv.Op{wc("PAUSE"), pub(0, 1), wc("UNPAUSE"), wc("STOP"), wc("PAUSE"), st(true, false, true), pub(0, 2), wc("PAUSED"), pub(0, 2), wc("stopping"), st(false, false, true), pub(0, 1)}},
 	}
@@ -145,6 +147,24 @@ func gen(seed uint64, tier string) []interface{} {
 		out = append(out, genCase(r.Fork(), id, tier))
 		id++
 	}
+	// fault stream: histories that end with writing active, then STOP under a side-file fault
+	rf := lib.NewRng(seed ^ 0xfa17)
+	for i := 0; i < n/8+3; i++ {
+		c := genCase(rf.Fork(), id, "quick")
+		c.Fault = true
+		c.Base = 1
+		last := drv.Op{Op: "WC", Req: "START", L22: rf.Bool(), L3: rf.Bool()}
+		if !last.L22 && !last.L3 {
+			last.L22 = true
+		}
+		last.OFF = rf.Bool()
+		c.Ops = append(c.Ops, drv.Op{Op: "WC", Req: "STOP"}, last, drv.Op{Op: "PUB", Ch: 0, N: 2})
+		if rf.Chance(1, 3) {
+			c.Ops = append(c.Ops, drv.Op{Op: "WC", Req: "PAUSE"})
+		}
+		out = append(out, c)
+		id++
+	}
 	return out
 }
 
@@ -162,7 +182,8 @@ func runOnce(c drv.Case) (lib.Result, bool) {
 		R [][]int
 		M int
 		O []drv.Op
-	}{c.Proj, c.Base, c.Pre, c.Map, c.Ops})}
+		F bool
+	}{c.Proj, c.Base, c.Pre, c.Map, c.Ops, c.Fault})}
 	s, err := drv.NewSession(&c)
 	if err != nil {
 		panic(err)
@@ -260,6 +281,14 @@ ops:
 		}
 	}
 	res.Term = fmt.Sprintf("mk %s %s %s %s", c.ConfigTerm(), rs0.Term(), drv.WritersTerm(w0), lib.List(terms))
+	if c.Fault && !tags["request-never-answered"] {
+		if f := s.FaultStop(); f != nil {
+			res.Term = fmt.Sprintf("mkF %s %s %s %s %s %s %s", c.ConfigTerm(), rs0.Term(), drv.WritersTerm(w0), lib.List(terms),
+				drv.WritersTerm(f.Writers), lib.Z(int64(f.Open)), lib.B(f.Stored))
+			outs = append(outs, stepOut{"FAULT-STOP", f})
+			tags["fault-stop"] = true
+		}
+	}
 	res.Impl = outs
 	res.NonTrivial = len(startSets) >= 2 && pausedOK && stored && notStored
 	for t := range tags {
